@@ -1207,4 +1207,98 @@ theorem compile_correct_prog (k : Nat) (hk : k ≤ maxTier) (ti : TreeInfo) (t :
       rw [show W.X.p.capsize = capsize ti from hpz] at this
       exact this
 
+/-! ## the bool-only program as a program for the stripped tree -/
+
+/-- `QuickCodes` is the main writer's code for the stripped tree, and the three writers build the same tables
+    (cf. `Props.C01.emitQuick_eq_emit_strip`) -/
+theorem quickCodes_strip (ti : TreeInfo) (t : GoNode) (q : List Int) (h : quickCodes ti t = some q) :
+    q = (emit ti (stripTree (quickCfg ti t) t)).codes.toList ∧
+      (codeFromTree (mainCfg ti) (stripTree (quickCfg ti t) t)).2 = (codeFromTree (mainCfg ti) t).2 := by
+  have htab : (codeFromTree (quickCfg ti t) t).2 = (codeFromTree (mainCfg ti) (stripTree (quickCfg ti t) t)).2 := by
+    simp only [codeFromTree, quickCfg, mainCfg]
+    rw [emitNode_strip]
+  refine ⟨?_, by rw [← htab]; exact codeFromTree_tables _ _ t⟩
+  simp only [quickCodes] at h
+  split at h
+  · simp only [Option.some.injEq] at h
+    subst h
+    simp only [emit, codeFromTree, quickCfg, mainCfg]
+    rw [emitNode_strip, size_strip]
+  · simp at h
+
+/-- the bool-only program shares code words, tables and capture size with the main writer's program for the
+    stripped tree (it differs in `trackcount`: the dropped `Setmark`/`Capturemark` pairs are still counted) -/
+theorem emitQuick_prog (ti : TreeInfo) (t : GoNode) (qp : Prog) (h : emitQuick ti t = some qp) :
+    qp.codes = (emit ti (stripTree (quickCfg ti t) t)).codes ∧
+    qp.strings = (emit ti (stripTree (quickCfg ti t) t)).strings ∧
+    qp.nsets = (emit ti (stripTree (quickCfg ti t) t)).nsets ∧
+    qp.capsize = capsize ti := by
+  simp only [emitQuick] at h
+  cases hq : quickCodes ti t with
+  | none => simp [hq] at h
+  | some q =>
+    simp only [hq, Option.map_some, Option.some.injEq] at h
+    subst h
+    obtain ⟨h1, h2⟩ := quickCodes_strip ti t q hq
+    refine ⟨?_, ?_, ?_, rfl⟩
+    · simp only [h1]
+    · simp only [emit, h2]
+    · simp only [emit, h2]
+
+theorem toPatRoot_strip (cfg : Cfg) (h0 : emitCapture cfg 0 (-1) = true) (X : TP) (d : Bool) (t : GoNode) (pat : Pat)
+    (h : toPatRoot X d t = some pat) : toPatRoot X d (stripTree cfg t) = some (stripCaps (keepOf cfg) pat) := by
+  obtain ⟨body, rfl, hb⟩ := toPatRoot_some h
+  simp only [stripTree, h0, if_true, toPatRoot]
+  exact toPat_strip cfg h0 X body d pat hb
+
+/-- **`stripTree` stays inside the fragment** -/
+theorem inFrag_strip (cfg : Cfg) (h0 : emitCapture cfg 0 (-1) = true) (k : Nat) (X : TP) (ti : TreeInfo) (t : GoNode)
+    (h : InFrag k X ti t = true) : InFrag k X ti (stripTree cfg t) = true := by
+  have ht := tier_strip cfg t
+  simp only [InFrag, Bool.and_eq_true, decide_eq_true_eq, Bool.not_eq_true', beq_iff_eq, Bool.or_eq_true] at h ⊢
+  obtain ⟨⟨⟨⟨h1, h2⟩, h3⟩, h4⟩, h5⟩ := h
+  refine ⟨⟨⟨⟨?_, by omega⟩, h3⟩, h4⟩, h5.imp (fun h => by omega) id⟩
+  cases hp : toPatRoot X ti.rtl t with
+  | none => simp [hp] at h1
+  | some pat => rw [toPatRoot_strip cfg h0 X ti.rtl t pat hp]; rfl
+
+/-- two runs of the same attempt that both end at `Stop` end in the same state (cf. `Props.C01.run_done_unique`) -/
+theorem run_done_unique' (p : Code.Prog) (env : VM.Env) (s0 s s' : VM.VMState) (f f' : Nat)
+    (h : (VM.run p env f s0).1 = .done s) (h' : (VM.run p env f' s0).1 = .done s') : s = s' := by
+  induction f generalizing f' s0 with
+  | zero => simp [VM.run] at h
+  | succ f ih =>
+    cases f' with
+    | zero => simp [VM.run] at h'
+    | succ f' =>
+      unfold VM.run at h h'
+      cases hst : VM.step p env s0 with
+      | fault e => rw [hst] at h; simp at h
+      | stop t => rw [hst] at h h'; simp at h h'; rw [← h, ← h']
+      | next t chk => rw [hst] at h h'; simp at h h'; exact ih t f' h h'
+
+/-! ## concrete instances for the non-vacuity examples of Props/C02, part D -/
+
+/-- what an attempt of the BOOL-ONLY program reports: matched?, final text position, live prefix of every capture array
+    (`none`: no bool-only program, or the run did not end at `Stop`) -/
+def qkRun (ti : TreeInfo) (t : GoNode) (env : VM.Env) (i : Nat) (fuel : Nat) : Option (Bool × Int × List (List Int)) :=
+  match emitQuick ti t with
+  | none => none
+  | some qp =>
+    match VM.init qp (i : Int) with
+    | .ok s0 =>
+      match (VM.run qp env fuel s0).1 with
+      | .done s => some (VM.matched s, s.textpos,
+          (List.range (capsize ti)).map (fun c => (MatchBuilder.arr s.cap.m c).take (2 * MatchBuilder.cnt s.cap.m c)))
+      | _ => none
+    | .error _ => none
+
+/-- `(a)(b)\1`: group 1 is read back and kept, group 2 is dropped -/
+def qkT1 : GoNode :=
+  .capture 0 (-1) (.concat [.capture 1 (-1) (.char opOne false false 97), .capture 2 (-1) (.char opOne false false 98),
+    .ref false false 1])
+
+/-- `(x)y`: group 1 is dropped -/
+def qkT2 : GoNode := .capture 0 (-1) (.concat [.capture 1 (-1) (.char opOne false false 120), .char opOne false false 121])
+
 end RegexVerif.Compile
